@@ -2280,3 +2280,39 @@ def r1c(cx):
 
 
 RS.explanation += ' The PATH search visits every item of the colon list, empty ones included (R1c).'
+
+
+# ---------------------------------------------------------------------------------------
+# added after seed wave 4 (C02-s8: a command that expands to nothing kept the previous $?)
+ENV_ADT = 'yash_env::Env'
+
+
+@RS.rule('C02.R13', 'K-PASS', 'every simple command decides $?: a command without a command name (all words expanded to nothing, only assignments '
+         'and/or redirections, or nothing at all) sets the exit status on every normal return - `false; $empty; echo $?` prints 0, '
+         '`if $empty; then A; else B; fi` runs A (POSIX 2.9.1: "if there is no command name ... the command shall complete with a zero exit status" '
+         'or that of the last command substitution)')
+def r13(cx):
+    F = cx.F
+    fn = 'yash_semantics::command::simple_command::absent::execute_absent_target'
+    body = F.inlined(F.main_body(fn))
+    cx.fn(body.fn)
+    fw = [w for w in Q.field_writes(body, ENV_ADT, 'exit_status') if w[3] == 'assign']
+    writes = {w[0] for w in fw}
+    # normal returns: blocks that write Continue(..) to the return place
+    normal = [b for b, j, st in Q.find_aggregates(body, 'core::ops::control_flow::ControlFlow', 'Continue')
+              if st['lhs']['l'] == 0 and not st['lhs'].get('p')]
+    cx.require(normal, 'execute_absent_target has no `Continue(())` return (anchor moved)')
+    cx.site('%s: %d normal return(s); env.exit_status written at %s' % (
+        body.fn, len(normal), sorted({body.loc(w[2]) for w in fw})))
+    if not writes:
+        cx.violation(fn, 'status-never-set', 'a command without a command name never sets $?', loc=body.loc(body.d))
+        return
+    path = Q.must_pass(body, [0], writes, goal_blocks=normal)
+    if path is not None:
+        cx.violation(fn, 'normal-return-without-status', 'a command without a command name can complete normally without setting $?: the '
+                     'previous status survives (`false; $empty; echo $?` prints 1; `$(exit 3)` as a whole command loses its 3 only if '
+                     'the status is not taken from the substitution)', loc=body.loc(body.blocks[path[-1]]['s'][-1] if body.blocks[path[-1]]['s'] else body.term(path[-1])),
+                     path=Q.render_path(body, path))
+
+
+RS.explanation += ' A command without a command name sets $? on every normal return (R13).'
